@@ -16,8 +16,10 @@
 (* Dev_QueueCountsDeadEntries (TRUE = code today): `_terminal_queue` gets one entry per       *)
 (* terminal *update* and entries are never removed when a handler is deleted or becomes      *)
 (* non-terminal again, yet its *length* is compared with max_completed.  Duplicate or stale   *)
-(* entries therefore push live completed handlers out early.  FALSE = intended: the cap      *)
-(* counts distinct, currently completed handlers, ordered by their latest completion.        *)
+(* entries therefore push live completed handlers out early.  FALSE = the code since /repo   *)
+(* 818fdf0: every update first removes the handler's entry (_forget_terminal), delete removes *)
+(* the entries of the deleted handlers, so the queue holds exactly one entry per currently   *)
+(* terminal handler, ordered by latest completion.                                           *)
 (****************************************************************************)
 EXTENDS Integers, Sequences, FiniteSets, TLC
 
@@ -124,9 +126,12 @@ Put(id, h) ==
       c == IF h.st \in Terminal THEN Append(Remove(comp, id), id) ELSE comp
       c1 == IF h.st \in Terminal /\ ~IsTerm(rows, id) THEN Append(Remove(comp1, id), id) ELSE comp1
       tqa == Append(tq, id)
-      res == IF Backend # "memory" \/ h.st \notin Terminal THEN [tq |-> tq, rows |-> exp]
-             ELSE IF Dev_QueueCountsDeadEntries THEN EvictCode(tqa, exp)
-             ELSE EvictIntended(tq, exp, id)
+      res == IF Backend # "memory" THEN [tq |-> tq, rows |-> exp]
+             ELSE IF Dev_QueueCountsDeadEntries
+                  THEN (IF h.st \notin Terminal THEN [tq |-> tq, rows |-> exp] ELSE EvictCode(tqa, exp))
+             \* _forget_terminal(id) on every update; append + evict on a terminal one
+             ELSE IF h.st \notin Terminal THEN [tq |-> Remove(tq, id), rows |-> exp]
+             ELSE EvictCode(Append(Remove(tq, id), id), exp)
       good == IF Backend = "memory" THEN res.rows = Retained(exp, c) \/ res.rows = Retained(exp, c1)
               ELSE res.rows = exp
       cause == IF Backend = "memory" /\ h.st \in Terminal /\ Dev_QueueCountsDeadEntries
@@ -157,7 +162,8 @@ Delete(k) ==
          d == DeleteSet(rows, q) IN
      /\ rows' = [id \in Ids |-> IF id \in d THEN NoRow ELSE rows[id]]
      /\ flag' = IF flag # "ok" \/ NumGiven(q) = 0 \/ d = MatchingS(rows, q) THEN flag ELSE "delete"
-  /\ UNCHANGED <<tq, comp, comp1>>
+     /\ tq' = IF Backend = "memory" /\ ~Dev_QueueCountsDeadEntries THEN SelectSeq(tq, LAMBDA x : x \notin d) ELSE tq
+  /\ UNCHANGED <<comp, comp1>>
 
 Init == /\ conf \in Confs
         /\ rows = [id \in Ids |-> NoRow] /\ tq = <<>> /\ comp = <<>> /\ comp1 = <<>> /\ flag = "ok" /\ nops = 0
